@@ -567,11 +567,22 @@ func crashIndex(r *core.Report, cs *crashScope, floor int) {
 						if be == nil {
 							continue
 						}
-						id, isID := ast.Unparen(be).(*ast.Ident)
+						// i, i+1, i-1
+						inner := ast.Unparen(be)
+						if bx, ok := inner.(*ast.BinaryExpr); ok && (bx.Op == token.ADD || bx.Op == token.SUB) {
+							if _, isConst := intConst(info, bx.Y); isConst {
+								inner = ast.Unparen(bx.X)
+							}
+						}
+						id, isID := inner.(*ast.Ident)
 						if !isID {
 							continue
 						}
 						from := searchedPosition(info, ff, id)
+						var shift ast.Expr // id = shift + search: the test that helps is id >= shift
+						if from == "" {
+							from, shift = shiftedSearchedPosition(info, ff, id)
+						}
 						if from == "" {
 							continue
 						}
@@ -595,6 +606,12 @@ func crashIndex(r *core.Report, cs *crashScope, floor int) {
 								op = flipOp(op)
 							}
 							if lid, ok := l.(*ast.Ident); ok && info.ObjectOf(lid) == info.ObjectOf(id) {
+								if shift != nil {
+									if (op == token.GEQ || op == token.GTR) && exprText(rr) == exprText(shift) {
+										found = true
+									}
+									continue
+								}
 								if z, ok := intConst(info, rr); ok {
 									switch {
 									case op == token.GEQ && z >= 0, op == token.GTR && z >= -1, op == token.NEQ && z == -1:
@@ -2057,6 +2074,41 @@ func verifyMuxMethods(p *core.Prog) string {
 	}
 	if paths == 0 || withMethods < paths {
 		return fmt.Sprintf("%d mux routes are registered with Path(...) but only %d get a Methods(...) matcher", paths, withMethods)
+	}
+	return ""
+}
+
+// shiftedSearchedPosition: the identifier's only assignment is `e + strings.Index*(...)` (either
+// order): -1 from the search is hidden in the sum, which is then e-1.
+func shiftedSearchedPosition(info *types.Info, ff *core.FuncFacts, id *ast.Ident) (string, ast.Expr) {
+	as := ff.Assigns(info.ObjectOf(id))
+	if len(as) != 1 || as[0].Rhs == nil {
+		return "", nil
+	}
+	bx, ok := ast.Unparen(as[0].Rhs).(*ast.BinaryExpr)
+	if !ok || bx.Op != token.ADD {
+		return "", nil
+	}
+	for _, pair := range [][2]ast.Expr{{bx.X, bx.Y}, {bx.Y, bx.X}} {
+		if c, ok := ast.Unparen(pair[0]).(*ast.CallExpr); ok {
+			if name := searchCallName(info, c); name != "" {
+				return name, ast.Unparen(pair[1])
+			}
+		}
+	}
+	return "", nil
+}
+
+func exprText(e ast.Expr) string { return core.ExprStr(ast.Unparen(e)) }
+
+func searchCallName(info *types.Info, c *ast.CallExpr) string {
+	f := core.CalleeOf(info, c)
+	if f == nil || f.Pkg() == nil || (f.Pkg().Path() != "strings" && f.Pkg().Path() != "bytes") {
+		return ""
+	}
+	switch f.Name() {
+	case "Index", "IndexByte", "IndexAny", "IndexRune", "LastIndex", "LastIndexByte", "LastIndexAny", "IndexFunc":
+		return f.Pkg().Path() + "." + f.Name()
 	}
 	return ""
 }
